@@ -392,3 +392,276 @@ Proof.
   unfold route_funcs. apply in_flat_map. exists rt. split; [exact Hrt|].
   apply (closed_complete fs (root_funcs fs rt) Hcl (rt_fn rt) n Hs); [apply mem_In; exact Hroot | exact Hn].
 Qed.
+
+(* ------------------------------------------------------------------------------------------------------------------------------
+   Reset VALUES: soundness of the boolean checker check_values *)
+Lemma lookup_init_in : forall is c f e, lookup_init is c f = Some e -> In (mk_init c f e) is.
+Proof.
+  induction is as [|i r IH]; simpl; intros c f e H; [discriminate|].
+  destruct (String.eqb (i_class i) c && String.eqb (i_field i) f) eqn:E.
+  - apply andb_true_iff in E. destruct E as [E1 E2]. apply String.eqb_eq in E1, E2. inversion H. subst.
+    left. destruct i; reflexivity.
+  - right. apply IH. exact H.
+Qed.
+
+(* what "the same value" means: the identical expression, or an empty-brace initialiser against 0 / nullptr *)
+Theorem same_value_spec : forall i v,
+  same_value i v = true <-> i = v \/ (i = CLit "{}" /\ (v = CLit "0" \/ v = CLit "nullptr")).
+Proof.
+  intros i v. unfold same_value, zero_value. rewrite orb_true_iff, andb_true_iff, orb_true_iff, !cexpr_eqb_spec. tauto.
+Qed.
+
+Lemma excepted_spec : forall v, excepted v = true <->
+  exists x, In x value_exceptions /\ x_func x = v_func v /\ x_class x = v_class v /\ x_field x = v_field v.
+Proof.
+  intros v. unfold excepted. rewrite existsb_exists. split.
+  - intros [x [Hin H]]. exists x. split; [exact Hin|]. unfold exc_matches in H.
+    apply andb_true_iff in H. destruct H as [H H3]. apply andb_true_iff in H. destruct H as [H1 H2].
+    apply String.eqb_eq in H1, H2, H3. auto.
+  - intros [x [Hin [H1 [H2 H3]]]]. exists x. split; [exact Hin|]. unfold exc_matches. rewrite H1, H2, H3, !String.eqb_refl. reflexivity.
+Qed.
+
+(* the obligation proper: an assignment of a reviewed pure reset function that is not a reviewed exception writes the recorded
+   initial value of the member *)
+Theorem check_values_sound : forall is vs, check_values is vs = true ->
+  forall v, In v vs -> In (v_func v) value_funcs -> excepted v = false ->
+  exists i, In (mk_init (v_class v) (v_field v) i) is /\ lookup_init is (v_class v) (v_field v) = Some i /\ same_value i (v_val v) = true.
+Proof.
+  intros is vs H v Hin Hf Hx. unfold check_values in H. apply andb_true_iff in H. destruct H as [H _].
+  rewrite forallb_forall in H. specialize (H v Hin). unfold val_ok in H.
+  apply mem_In in Hf. rewrite Hf, Hx in H. simpl in H. unfold initial_value_written in H.
+  destruct (lookup_init is (v_class v) (v_field v)) as [i|] eqn:E; [|discriminate].
+  exists i. split; [apply lookup_init_in; exact E|]. split; [reflexivity | exact H].
+Qed.
+
+(* the exceptions are real: each names an extracted assignment of a listed function whose value is NOT the initial value *)
+Theorem value_exceptions_real : forall is vs, check_values is vs = true ->
+  forall x, In x value_exceptions ->
+  In (x_func x) value_funcs /\
+  exists v, In v vs /\ v_func v = x_func x /\ v_class v = x_class x /\ v_field v = x_field x /\ initial_value_written is v = false.
+Proof.
+  intros is vs H x Hx. unfold check_values in H. apply andb_true_iff in H. destruct H as [_ H].
+  unfold values_hygiene in H. apply andb_true_iff in H. destruct H as [_ H].
+  rewrite forallb_forall in H. specialize (H x Hx). apply andb_true_iff in H. destruct H as [Hm He].
+  split; [apply mem_In; exact Hm|]. apply existsb_exists in He. destruct He as [v [Hin Hv]].
+  apply andb_true_iff in Hv. destruct Hv as [Hmatch Hneg]. exists v. split; [exact Hin|].
+  unfold exc_matches in Hmatch. apply andb_true_iff in Hmatch. destruct Hmatch as [Hm2 H3]. apply andb_true_iff in Hm2. destruct Hm2 as [H1 H2].
+  apply String.eqb_eq in H1, H2, H3. apply negb_true_iff in Hneg. auto.
+Qed.
+
+(* every listed function still has an extracted assignment (a renamed / emptied reset function is noticed) *)
+Theorem value_funcs_present : forall is vs, check_values is vs = true ->
+  forall f, In f value_funcs -> exists v, In v vs /\ v_func v = f.
+Proof.
+  intros is vs H f Hf. unfold check_values in H. apply andb_true_iff in H. destruct H as [_ H].
+  unfold values_hygiene in H. apply andb_true_iff in H. destruct H as [H _].
+  rewrite forallb_forall in H. specialize (H f Hf). apply existsb_exists in H. destruct H as [v [Hin Hv]].
+  exists v. split; [exact Hin|]. apply String.eqb_eq in Hv. exact Hv.
+Qed.
+
+(* completeness of the report: bad_values lists exactly the assignments that fail val_ok *)
+Theorem bad_values_complete : forall is vs, bad_values is vs = [] -> forallb (val_ok is) vs = true.
+Proof.
+  intros is vs. unfold bad_values. induction vs as [|v r IH]; simpl; [reflexivity|].
+  destruct (val_ok is v); simpl; [exact IH | discriminate].
+Qed.
+
+(* ------------------------------------------------------------------------------------------------------------------------------
+   Set-up ... tear-down functions *)
+
+(* last_val really is the value of the LAST matching assignment of the sequence *)
+Definition val_matches (fn c f : string) (v : val_decl) : bool :=
+  String.eqb (v_func v) fn && String.eqb (v_class v) c && String.eqb (v_field v) f.
+
+Lemma last_val_app : forall vs1 vs2 fn c f acc,
+  last_val (vs1 ++ vs2)%list fn c f acc = last_val vs2 fn c f (last_val vs1 fn c f acc).
+Proof. induction vs1 as [|v r IH]; simpl; intros; [reflexivity | apply IH]. Qed.
+
+Lemma last_val_none_matches : forall vs fn c f acc,
+  forallb (fun v => negb (val_matches fn c f v)) vs = true -> last_val vs fn c f acc = acc.
+Proof.
+  induction vs as [|v r IH]; simpl; intros fn c f acc H; [reflexivity|].
+  apply andb_true_iff in H. destruct H as [H1 H2]. apply negb_true_iff in H1. unfold val_matches in H1. rewrite H1. apply IH. exact H2.
+Qed.
+
+Theorem last_val_is_last : forall vs fn c f e,
+  last_val vs fn c f None = Some e ->
+  exists vs1 v vs2, vs = (vs1 ++ v :: vs2)%list /\ val_matches fn c f v = true /\ v_val v = e /\
+                    forallb (fun w => negb (val_matches fn c f w)) vs2 = true.
+Proof.
+  intros vs fn c f. induction vs as [|v r IH] using rev_ind; intros e H; [discriminate|].
+  rewrite last_val_app in H. simpl in H.
+  destruct (String.eqb (v_func v) fn && String.eqb (v_class v) c && String.eqb (v_field v) f) eqn:E.
+  - inversion H. subst. exists r, v, []. repeat split; auto.
+  - destruct (IH e H) as [vs1 [v0 [vs2 [Hr [Hm [Hv Hn]]]]]]. exists vs1, v0, (vs2 ++ [v])%list. repeat split; auto.
+    + rewrite Hr, <- app_assoc. reflexivity.
+    + rewrite forallb_app, Hn. simpl. unfold val_matches. rewrite E. reflexivity.
+Qed.
+
+Lemma unconditional_assign_spec : forall fs fn c f, unconditional_assign fs fn c f = true ->
+  exists w, In w (writes_of fs fn) /\ w_class w = c /\ w_field w = f /\ w_sub w = "" /\ w_how w = "assign" /\ w_obj w = "this" /\ w_guard w = [].
+Proof.
+  intros fs fn c f H. unfold unconditional_assign in H. apply existsb_exists in H. destruct H as [w [Hin H]].
+  repeat (apply andb_true_iff in H; let H2 := fresh "H" in destruct H as [H H2]).
+  exists w. repeat match goal with H : String.eqb _ _ = true |- _ => apply String.eqb_eq in H end.
+  destruct (w_guard w); [|discriminate]. repeat split; auto.
+Qed.
+
+(* the obligation proper: for every member a set-up/tear-down function assigns, its last assignment in source order writes the
+   recorded initial value, and an unconditional assignment of the member (on `this`) exists in the function *)
+Theorem check_teardown_sound : forall is seq fs, check_teardown is seq fs = true ->
+  forall v, In v seq -> In (v_func v) teardown_funcs ->
+  exists i l, lookup_init is (v_class v) (v_field v) = Some i /\
+              last_val seq (v_func v) (v_class v) (v_field v) None = Some l /\ same_value i l = true /\
+              unconditional_assign fs (v_func v) (v_class v) (v_field v) = true.
+Proof.
+  intros is seq fs H v Hin Hf. unfold check_teardown in H. apply andb_true_iff in H. destruct H as [H _].
+  rewrite forallb_forall in H. specialize (H v Hin). unfold teardown_val_ok in H.
+  apply mem_In in Hf. rewrite Hf in H. simpl in H. apply andb_true_iff in H. destruct H as [H Hu].
+  destruct (lookup_init is (v_class v) (v_field v)) as [i|]; [|discriminate].
+  destruct (last_val seq (v_func v) (v_class v) (v_field v) None) as [l|]; [|discriminate].
+  exists i, l. auto.
+Qed.
+
+Theorem teardown_funcs_present : forall is seq fs, check_teardown is seq fs = true ->
+  forall f, In f teardown_funcs -> exists v, In v seq /\ v_func v = f.
+Proof.
+  intros is seq fs H f Hf. unfold check_teardown in H. apply andb_true_iff in H. destruct H as [_ H].
+  rewrite forallb_forall in H. specialize (H f Hf). apply existsb_exists in H. destruct H as [v [Hin Hv]].
+  exists v. split; [exact Hin | apply String.eqb_eq; exact Hv].
+Qed.
+
+(* ---- a small execution model for the assignments of one function: a store maps (class, member) to the expression last assigned
+   (None = untouched); the function's whole-member assignments are executed in source order. `last_val` is exactly the final
+   content of the store, for ANY sequence and ANY starting store. *)
+Definition store := string -> string -> option cexpr.
+Definition assign (s : store) (c f : string) (e : cexpr) : store :=
+  fun c' f' => if String.eqb c c' && String.eqb f f' then Some e else s c' f'.
+Fixpoint exec_fn (fn : string) (vs : list val_decl) (s : store) : store :=
+  match vs with
+  | [] => s
+  | v :: r => exec_fn fn r (if String.eqb (v_func v) fn then assign s (v_class v) (v_field v) (v_val v) else s)
+  end.
+
+Theorem exec_fn_last : forall vs fn s c f, exec_fn fn vs s c f = last_val vs fn c f (s c f).
+Proof.
+  induction vs as [|v r IH]; simpl; intros fn s c f; [reflexivity|].
+  rewrite IH. f_equal. destruct (String.eqb (v_func v) fn); simpl; [|reflexivity].
+  unfold assign. reflexivity.
+Qed.
+
+Lemma last_val_acc : forall vs fn c f acc,
+  last_val vs fn c f acc = match last_val vs fn c f None with Some e => Some e | None => acc end.
+Proof.
+  induction vs as [|v r IH]; simpl; intros fn c f acc; [reflexivity|].
+  destruct (String.eqb (v_func v) fn && String.eqb (v_class v) c && String.eqb (v_field v) f).
+  - rewrite (IH fn c f (Some (v_val v))). destruct (last_val r fn c f None); reflexivity.
+  - apply IH.
+Qed.
+
+(* hence: executing the assignments of a checked set-up/tear-down function from ANY store leaves every member the function
+   assigns at (an expression equal to) its initial value *)
+Theorem teardown_final_store : forall is seq fs, check_teardown is seq fs = true ->
+  forall v, In v seq -> In (v_func v) teardown_funcs ->
+  forall s, exists i l, lookup_init is (v_class v) (v_field v) = Some i /\
+                        exec_fn (v_func v) seq s (v_class v) (v_field v) = Some l /\ same_value i l = true.
+Proof.
+  intros is seq fs H v Hin Hf s. destruct (check_teardown_sound is seq fs H v Hin Hf) as [i [l [Hi [Hl [Hs _]]]]].
+  exists i, l. split; [exact Hi|]. split; [|exact Hs]. rewrite exec_fn_last, last_val_acc, Hl. reflexivity.
+Qed.
+
+(* pure reset functions: WHICHEVER of the function's extracted assignments execute, in WHATEVER order (any sequence drawn from the
+   extracted assignments: branches taken or not, loops repeated), a member the function wrote holds its initial value afterwards
+   (reviewed exceptions excluded) -- no path analysis is needed because every single assignment writes the initial value *)
+Theorem reset_fn_final_store : forall is vs, check_values is vs = true ->
+  forall fn, In fn value_funcs ->
+  forall path, incl path vs -> (forall v, In v path -> v_func v = fn -> excepted v = false) ->
+  forall s c f l, exec_fn fn path s c f = Some l ->
+    s c f = Some l \/ exists i, lookup_init is c f = Some i /\ same_value i l = true.
+Proof.
+  intros is vs H fn Hfn path Hincl Hexc s c f l Hex. rewrite exec_fn_last, last_val_acc in Hex.
+  destruct (last_val path fn c f None) as [e|] eqn:E; [|left; exact Hex].
+  right. inversion Hex. subst e. destruct (last_val_is_last path fn c f l E) as [p1 [v [p2 [Hp [Hm [Hv _]]]]]].
+  unfold val_matches in Hm. apply andb_true_iff in Hm. destruct Hm as [Hm H3]. apply andb_true_iff in Hm. destruct Hm as [H1 H2].
+  apply String.eqb_eq in H1, H2, H3.
+  assert (Hin : In v path) by (rewrite Hp; apply in_or_app; right; left; reflexivity).
+  destruct (check_values_sound is vs H v (Hincl v Hin)) as [i [_ [Hi Hs]]].
+  - rewrite H1. exact Hfn.
+  - apply Hexc; assumption.
+  - exists i. rewrite <- H2, <- H3, <- Hv. split; assumption.
+Qed.
+
+(* frame condition of the execution model: a member none of the executed assignments names keeps its content *)
+Theorem exec_fn_frame : forall vs fn s c f,
+  forallb (fun v => negb (val_matches fn c f v)) vs = true -> exec_fn fn vs s c f = s c f.
+Proof. intros. rewrite exec_fn_last. apply last_val_none_matches. assumption. Qed.
+
+(* ... and assignments of OTHER functions never count *)
+Theorem exec_fn_other_functions : forall vs fn s c f,
+  forallb (fun v => negb (String.eqb (v_func v) fn)) vs = true -> exec_fn fn vs s c f = s c f.
+Proof.
+  intros vs fn s c f H. apply exec_fn_frame. rewrite forallb_forall in *. intros v Hv. specialize (H v Hv).
+  unfold val_matches. apply negb_true_iff in H. rewrite H. reflexivity.
+Qed.
+
+(* the report is exact in both directions: an assignment is listed iff it fails val_ok *)
+Theorem bad_values_exact : forall is vs fn c f,
+  In (fn, c, f) (bad_values is vs) <-> exists v, In v vs /\ val_ok is v = false /\ v_func v = fn /\ v_class v = c /\ v_field v = f.
+Proof.
+  intros is vs fn c f. unfold bad_values. rewrite in_map_iff. split.
+  - intros [v [Heq Hin]]. apply filter_In in Hin. destruct Hin as [Hin Hb]. apply negb_true_iff in Hb.
+    inversion Heq. exists v. auto.
+  - intros [v [Hin [Hb [H1 [H2 H3]]]]]. exists v. split; [rewrite H1, H2, H3; reflexivity|].
+    apply filter_In. split; [exact Hin | rewrite Hb; reflexivity].
+Qed.
+
+Theorem bad_teardown_exact : forall is seq fs fn c f,
+  In (fn, c, f) (bad_teardown is seq fs) <->
+  exists v, In v seq /\ teardown_val_ok is seq fs v = false /\ v_func v = fn /\ v_class v = c /\ v_field v = f.
+Proof.
+  intros is seq fs fn c f. unfold bad_teardown. rewrite in_map_iff. split.
+  - intros [v [Heq Hin]]. apply filter_In in Hin. destruct Hin as [Hin Hb]. apply negb_true_iff in Hb.
+    inversion Heq. exists v. auto.
+  - intros [v [Hin [Hb [H1 [H2 H3]]]]]. exists v. split; [rewrite H1, H2, H3; reflexivity|].
+    apply filter_In. split; [exact Hin | rewrite Hb; reflexivity].
+Qed.
+
+(* the coverage idiom `assign`, inside a pure reset function, always comes with a checked value: every whole-member assign-write of
+   such a function has a value row, and every non-excepted value row of the function is the initial value *)
+Theorem assign_write_has_initial_value : forall is fs vs,
+  assign_writes_have_values fs vs = true -> check_values is vs = true ->
+  forall fn w, In fn value_funcs -> In w (writes_of fs fn) -> w_how w = "assign" -> w_sub w = "" ->
+  exists v, In v vs /\ v_func v = fn /\ v_class v = w_class w /\ v_field v = w_field w /\
+            (excepted v = true \/ exists i, lookup_init is (w_class w) (w_field w) = Some i /\ same_value i (v_val v) = true).
+Proof.
+  intros is fs vs Hc Hv fn w Hfn Hw Hhow Hsub. unfold assign_writes_have_values in Hc. rewrite forallb_forall in Hc.
+  specialize (Hc fn (in_or_app _ _ _ (or_introl Hfn))). rewrite forallb_forall in Hc. specialize (Hc w Hw).
+  rewrite Hhow, Hsub in Hc. simpl in Hc. unfold has_val in Hc. apply existsb_exists in Hc. destruct Hc as [v [Hin Hm]].
+  apply andb_true_iff in Hm. destruct Hm as [Hm H3]. apply andb_true_iff in Hm. destruct Hm as [H1 H2].
+  apply String.eqb_eq in H1, H2, H3. exists v. repeat split; auto.
+  destruct (excepted v) eqn:E; [left; reflexivity | right].
+  destruct (check_values_sound is vs Hv v Hin) as [i [_ [Hi Hs]]]; [rewrite H1; exact Hfn | exact E |].
+  exists i. rewrite <- H2, <- H3. split; assumption.
+Qed.
+
+(* functions that reset one of their arguments *)
+Theorem check_object_values_sound : forall is vo, check_object_values is vo = true ->
+  forall o v, In (o, v) vo -> In (v_func v, o) value_obj_funcs ->
+  exists i, lookup_init is (v_class v) (v_field v) = Some i /\ same_value i (v_val v) = true.
+Proof.
+  intros is vo H o v Hin Hl. unfold check_object_values in H. apply andb_true_iff in H. destruct H as [H _].
+  rewrite forallb_forall in H. specialize (H (o, v) Hin). simpl in H.
+  assert (L : obj_listed o v = true).
+  { unfold obj_listed. apply existsb_exists. exists (v_func v, o). split; [exact Hl|]. simpl. rewrite !String.eqb_refl. reflexivity. }
+  rewrite L in H. simpl in H. unfold initial_value_written in H.
+  destruct (lookup_init is (v_class v) (v_field v)) as [i|]; [|discriminate]. exists i. auto.
+Qed.
+
+Theorem value_obj_funcs_present : forall is vo, check_object_values is vo = true ->
+  forall fn o, In (fn, o) value_obj_funcs -> exists v, In (o, v) vo /\ v_func v = fn.
+Proof.
+  intros is vo H fn o Hin. unfold check_object_values in H. apply andb_true_iff in H. destruct H as [_ H].
+  rewrite forallb_forall in H. specialize (H (fn, o) Hin). apply existsb_exists in H. destruct H as [[o' v] [Hv Hm]].
+  simpl in Hm. apply andb_true_iff in Hm. destruct Hm as [H1 H2]. apply String.eqb_eq in H1, H2. subst.
+  exists v. auto.
+Qed.
